@@ -720,6 +720,10 @@ def run(chk: Check) -> None:
     rule_w6(chk)
     rule_w7(chk, sinks)
     rule_w8(chk)
+    from .c15 import rule_x5
+    from .common import reuse
+
+    reuse(chk, rule_x5, "W9", "after the response the connection is really closed on both backends: close() of the transport facade reaches the TCP close on every normal path (= C15.X5)", ("X5",))
     chk.trusted = [
         "CPython ast parser",
         "engine CFG / inliner / BoolFacts path pruning / abstract string domain",
